@@ -114,9 +114,11 @@ def find_islands(im, bkg, rms,
         if np.any(snr[xmin:xmax, ymin:ymax][own] > seed_clip):
             # obey region constraint
             if region is not None:
-                y, x = np.where(snr[xmin:xmax, ymin:ymax] >= flood_clip)
-                yx = list(zip(y + ymin, x + xmin))
-                ra, dec = wcs.wcs.wcs_pix2world(yx, 1).transpose()
+                # (row, col) indices of the pixels of this island only
+                rows, cols = np.where(own)
+                # wcs wants (x, y) = (col, row); array indices are 0-based
+                xy = list(zip(cols + ymin, rows + xmin))
+                ra, dec = wcs.wcs.wcs_pix2world(xy, 0).transpose()
                 mask = region.sky_within(ra, dec, degin=True)
                 if not np.any(mask):
                     continue
